@@ -24,7 +24,7 @@ func init() {
 	register(&Property{
 		ID:      "C09",
 		NeedSSA: true,
-		Decided: "Only the clause `equally when the merged row group is written to a file` is decided, structurally: (marker) mergedRowGroup and sortedSegmentRowGroup, dedup and converted wrappers do not carry the chunk-transparency marker, so the writer reads them through Rows(); mergedRowGroup declares its own segment accessor returning nil although it embeds a type that opts in; sortedSegmentRowGroup returns no segments on the duplicate-dropping path (the return of its segments is dominated by the test of dropDuplicatedRows); (bounds) the function that computes the key range of a sorted row group takes the direction of each sorting column from that column, not from a fixed one; (errors) the merge readers propagate read errors of their inputs (shared with C14.errflow). (bounds, cont.) the key range of a sorted row group consults the null counts of the column index and NullsFirst() of the sorting column. (nullcount) every count over definition levels (countLevelsEqual / countLevelsNotEqual on a value read from a field or parameter named after definition levels) compares with a maximum definition level, never with a constant. (wraporder) the argument of CompareDescending never derives from CompareNullsFirst / CompareNullsLast: the null placement is applied outside the reversal. (cutnulls) a function that turns the bounds of a column index into row positions (MinValue/MaxValue together with FirstRowIndex) also consults NullCount.",
+		Decided: "Only the clause `equally when the merged row group is written to a file` is decided, structurally: (marker) mergedRowGroup and sortedSegmentRowGroup, dedup and converted wrappers do not carry the chunk-transparency marker, so the writer reads them through Rows(); mergedRowGroup declares its own segment accessor returning nil although it embeds a type that opts in; sortedSegmentRowGroup returns no segments on the duplicate-dropping path (the return of its segments is dominated by the test of dropDuplicatedRows); (bounds) the function that computes the key range of a sorted row group takes the direction of each sorting column from that column, not from a fixed one; (errors) the merge readers propagate read errors of their inputs (shared with C14.errflow). (bounds, cont.) the key range of a sorted row group consults the null counts of the column index and NullsFirst() of the sorting column. (nullcount) every count over definition levels (countLevelsEqual / countLevelsNotEqual on a value read from a field or parameter named after definition levels) compares with a maximum definition level, never with a constant. (wraporder) the argument of CompareDescending never derives from CompareNullsFirst / CompareNullsLast: the null placement is applied outside the reversal. (cutnulls) a function that turns the bounds of a column index into row positions (MinValue/MaxValue together with FirstRowIndex) also consults NullCount. (rebuild) a function that builds a plain row group from the ColumnChunks() of a RowGroup it was given calls chunkTransparentRowGroup first, and the call dominates the construction.",
 		NotDecided: "sortedness, multiset equality, stability and deduplication of the merged sequence: the loser tree, run detection, range refinement and the page-boundary cut are value-dependent (a cut comparison that is `>=` instead of `>` is not visible structurally).",
 		Assumptions: []string{"method sets are computed by go/types, promotion included"},
 		Run:         runC09,
@@ -344,6 +344,7 @@ func lookupFuncs(p *Prog, keys ...string) []*ssa.Function {
 
 func runC09(c *Ctx) {
 	c09NullCount(c)
+	c09Rebuild(c)
 	c10WrapOrder(c)
 	p := c.P
 	markerRule(c, "C09.marker")
@@ -560,4 +561,66 @@ func c11Source(c *Ctx) {
 	c.Stats[rule+".accesses_to_file_metadata"] = reads
 	c.Stats[rule+".file_metadata_fields"] = len(owned)
 	c.Check(rule, "the parsed metadata of an open file is written only while the file is opened", token.NoPos, len(bad) == 0 && reads > 20, strings.Join(bad, "; ")+": the structures belong to the open file and are shared by everything read or copied from it; a change made for one use is seen by the next (the second verbatim copy of a row group gets page locations rebased twice)")
+}
+
+// c09Rebuild — a plain row group built from the column chunks of another row
+// group (`&rowGroup{columns: f(r.ColumnChunks())}`) stands for r only when r's
+// rows are what its chunks hold. Every function that builds one from the
+// chunks of a RowGroup it was given asks chunkTransparentRowGroup first, and the
+// answer dominates the construction.
+func c09Rebuild(c *Ctx) {
+	rule := "C09.rebuild"
+	p := c.P
+	rg := p.LookupType("rowGroup")
+	if !c.Anchor(rule, "rowGroup", rg != nil) {
+		return
+	}
+	n := 0
+	for _, fn := range p.ModuleSSAFuncs() {
+		if fn.Origin() != nil || fn.Blocks == nil || fn.Parent() != nil || fnPkgPath(fn) != modPath {
+			continue
+		}
+		// does it take the chunks of a RowGroup parameter?
+		var fromParam []ssa.Instruction
+		allCalls(fn, false, func(_ *ssa.Function, call ssa.CallInstruction) {
+			cc := call.Common()
+			if cc.IsInvoke() && cc.Method.Name() == "ColumnChunks" {
+				if _, isPar := cc.Value.(*ssa.Parameter); isPar {
+					fromParam = append(fromParam, call.(ssa.Instruction))
+				}
+			}
+		})
+		if len(fromParam) == 0 {
+			continue
+		}
+		// and build a plain rowGroup?
+		var builds []*ssa.Alloc
+		allInstrs(fn, false, func(_ *ssa.Function, ins ssa.Instruction) {
+			if al, ok := ins.(*ssa.Alloc); ok {
+				if an := namedOf(al.Type()); an != nil && an.Obj() == rg.Obj() {
+					builds = append(builds, al)
+				}
+			}
+		})
+		if len(builds) == 0 {
+			continue
+		}
+		var asks []ssa.Instruction
+		allCalls(fn, false, func(_ *ssa.Function, call ssa.CallInstruction) {
+			if calleeName(call) == "chunkTransparentRowGroup" {
+				asks = append(asks, call.(ssa.Instruction))
+			}
+		})
+		for i, al := range builds {
+			n++
+			ok := false
+			for _, a := range asks {
+				if dominates(a, al) {
+					ok = true
+				}
+			}
+			c.Check(rule, FuncKey(fn)+" rebuilds a row group from chunks only when the chunks are its rows#"+itoa(i+1), al.Pos(), ok, FuncKey(fn)+" builds a plain row group from the column chunks of the row group it was given without asking chunkTransparentRowGroup first: the rows of a merged or deduplicating row group are not what its chunks hold, and reading the copy returns the concatenation of the inputs")
+		}
+	}
+	c.Min(rule, 1)
 }
